@@ -355,3 +355,163 @@ Qed.
 Corollary await_write_all_io_fuel sel b w extra w' :
   len b <= extra -> await_write_all (io_fuel w extra) sel b w <> Halt OFuel w'.
 Proof. intros H. apply await_write_all_fuel. unfold io_fuel, len in *. lia. Qed.
+
+(* the explicit reading of [wpost] together with a statement about fuel exhaustion *)
+Definition wspec (sel : bool) (b : bytes) (w : world) (fuel_small : Prop) (r : res (option N)) : Prop :=
+  match r with
+  | Ok None w' => io_rel w w' b
+  | Ok (Some k) w' => (k = EK_WriteZero \/ k = EK_Transport) /\ ~ no_fault (wscript w) /\
+      exists b1 b2, b = b1 ++ b2 /\ b2 <> [] /\ io_rel w w' b1
+  | Halt ORet w' => sel = true /\ stopped w' = true /\ exists b1 b2, b = b1 ++ b2 /\ b2 <> [] /\ io_rel w w' b1
+  | Halt OFuel w' => fuel_small /\ exists b1 b2, b = b1 ++ b2 /\ io_rel w w' b1
+  | Halt _ _ => False
+  end.
+
+Lemma wpost_wspec sel b w (fs : Prop) r : wpost sel b w r -> (forall w', r = Halt OFuel w' -> fs) -> wspec sel b w fs r.
+Proof.
+  intros H Hf. destruct r as [[k|] w'|o w']; cbn [wpost wspec] in *.
+  - destruct H as (b1 & b2 & Hb & Hne & Hio & Hk). split; [eapply fault_of_kind; exact Hk|].
+    split; [intros Hn; eapply no_fault_not_fault; eassumption|]. exists b1, b2. tauto.
+  - exact H.
+  - destruct o; try exact H. split; [eapply Hf; reflexivity|exact H].
+Qed.
+
+(* ------------------------------------------------------------------------------------------ *)
+(* Part 3: the vectored write loop of StreamWriter::poll_write                                  *)
+(* ------------------------------------------------------------------------------------------ *)
+
+Definition nonempty (s : bytes) : bool := negb (len s =? 0).
+
+(* the local [cut] of write_slices: remove n bytes from the front of a slice list *)
+Fixpoint cut_slices (n : N) (l : list bytes) : list bytes :=
+  match l with
+  | [] => []
+  | s :: t => if len s <=? n then cut_slices (n - len s) t else drop n s :: t
+  end.
+
+Lemma write_slices_S f slices w : write_slices (S f) slices w =
+  match filter nonempty slices with
+  | [] => Ok None w
+  | s1 :: more =>
+    match t_poll_write (if vectored w then s1 ++ concat more else s1) w with
+    | (PReady (inl n), w') =>
+      if n =? 0 then Ok (Some EK_WriteZero) w' else write_slices f (cut_slices n (s1 :: more)) w'
+    | (PReady (inr k), w') => Ok (Some k) w'
+    | (PWake, w') => on_wake false w' (write_slices f (s1 :: more))
+    | (PBlock, w') => Halt (OPanic 51) w'
+    end
+  end.
+Proof. reflexivity. Qed.
+
+Lemma concat_filter_nonempty l : concat (filter nonempty l) = concat l.
+Proof.
+  induction l as [|s t IH]; [reflexivity|]. cbn [filter]. unfold nonempty at 1.
+  destruct (N.eqb_spec (len s) 0) as [H|H]; cbn [negb concat].
+  - apply len_zero_nil in H. subst s. exact IH.
+  - rewrite IH. reflexivity.
+Qed.
+
+Lemma concat_cut n l : concat (cut_slices n l) = drop n (concat l).
+Proof.
+  revert n; induction l as [|s t IH]; intros n; cbn [cut_slices concat].
+  - rewrite drop_nil. reflexivity.
+  - destruct (N.leb_spec (len s) n) as [H|H].
+    + rewrite IH. rewrite drop_app_ge by lia. reflexivity.
+    + cbn [concat]. rewrite drop_app_le by lia. reflexivity.
+Qed.
+
+Lemma cut_length n l : (length (cut_slices n l) <= length l)%nat.
+Proof.
+  revert n; induction l as [|s t IH]; intros n; cbn [cut_slices length]; [lia|].
+  destruct (len s <=? n); [specialize (IH (n - len s)); lia|cbn [length]; lia].
+Qed.
+
+Lemma filter_len_le {A} (f : A -> bool) l : (length (filter f l) <= length l)%nat.
+Proof. induction l as [|x t IH]; cbn [filter length]; [lia|]. destruct (f x); cbn [length]; lia. Qed.
+
+Lemma filter_nonempty_head slices s1 more : filter nonempty slices = s1 :: more -> s1 <> [].
+Proof.
+  intros EF. assert (H : In s1 (filter nonempty slices)) by (rewrite EF; left; reflexivity).
+  apply filter_In in H. destruct H as [_ H]. intros E. subst s1. vm_compute in H. discriminate H.
+Qed.
+
+Theorem write_slices_post fuel : forall slices w, wpost false (concat slices) w (write_slices fuel slices w).
+Proof.
+  induction fuel as [|f IH]; intros slices w.
+  - cbn [write_slices wpost]. exists [], (concat slices). split; [reflexivity|apply io_rel_refl].
+  - rewrite write_slices_S. rewrite <- (concat_filter_nonempty slices).
+    destruct (filter nonempty slices) as [|s1 more] eqn:EF.
+    + cbn [concat wpost]. apply io_rel_refl.
+    + pose proof (filter_nonempty_head _ _ _ EF) as Hs1.
+      set (B := concat (s1 :: more)).
+      match goal with |- context [t_poll_write ?o w] => set (offer := o) end.
+      assert (HB : exists rest, B = offer ++ rest).
+      { unfold offer, B. cbn [concat]. destruct (vectored w);
+          [exists []; rewrite app_nil_r; reflexivity|exists (concat more); reflexivity]. }
+      assert (Hone : offer <> []).
+      { unfold offer. destruct (vectored w); [|exact Hs1]. intros H. apply app_eq_nil in H. tauto. }
+      assert (HBne : B <> []).
+      { destruct HB as [rest HB]. rewrite HB. intros H. apply app_eq_nil in H. tauto. }
+      destruct (t_poll_write_spec offer w) as [w1 Hs Hio|w1 Hs Hio|w1 Hs Hio|n w1 Hn Hpos Hio Hs Hnil Hk].
+      * apply on_wake_post; [exact HBne|exact Hio|]. intros w2. apply IH.
+      * change (0 =? 0) with true. cbn [wpost]. exists [], B. split; [reflexivity|]. split; [exact HBne|].
+        split; [exact Hio|]. left. split; [reflexivity|]. rewrite Hs. left. reflexivity.
+      * cbn [wpost]. exists [], B. split; [reflexivity|]. split; [exact HBne|].
+        split; [exact Hio|]. right. split; [reflexivity|]. rewrite Hs. left. reflexivity.
+      * specialize (Hpos Hone). destruct (N.eqb_spec n 0) as [Hn0|Hn0]; [lia|].
+        destruct HB as [rest HB].
+        assert (Ht : take n offer = take n B) by (rewrite HB, take_app_le by lia; reflexivity).
+        pose proof (IH (cut_slices n (s1 :: more)) w1) as HI. rewrite concat_cut in HI. fold B in HI.
+        rewrite Ht in Hio. pose proof (wpost_pre _ _ _ _ _ _ Hio HI) as HH. rewrite take_drop in HH. exact HH.
+Qed.
+
+Lemma write_slices_fuel fuel : forall slices w,
+  (length (wscript w) + length slices < fuel)%nat -> forall w', write_slices fuel slices w <> Halt OFuel w'.
+Proof.
+  induction fuel as [|f IH]; intros slices w Hf w'; [lia|].
+  rewrite write_slices_S. pose proof (filter_len_le nonempty slices) as Hfl. revert Hfl.
+  destruct (filter nonempty slices) as [|s1 more] eqn:EF; intros Hfl; [discriminate|].
+  pose proof (filter_nonempty_head _ _ _ EF) as Hs1.
+  match goal with |- context [t_poll_write ?o w] => set (offer := o) end.
+  assert (Hone : offer <> []).
+  { unfold offer. destruct (vectored w); [|exact Hs1]. intros H. apply app_eq_nil in H. tauto. }
+  assert (Hlo : len s1 <= len offer).
+  { unfold offer. destruct (vectored w); [rewrite len_app|]; lia. }
+  cbn [length] in Hfl.
+  destruct (t_poll_write_spec offer w) as [w1 Hs Hio|w1 Hs Hio|w1 Hs Hio|n w1 Hn Hpos Hio Hs Hnil Hk].
+  - apply on_wake_not; [discriminate|]. intros w2. apply IH.
+    change (wscript (w_bump w1)) with (wscript w1). rewrite Hs in Hf. cbn [length] in *. lia.
+  - change (0 =? 0) with true. discriminate.
+  - discriminate.
+  - specialize (Hpos Hone). destruct (N.eqb_spec n 0) as [Hn0|Hn0]; [lia|].
+    apply IH. rewrite Hs. pose proof (cut_length n (s1 :: more)) as Hc.
+    destruct (wscript w) as [|k ws'] eqn:Hw.
+    + cbn [cut_slices]. destruct (N.leb_spec (len s1) n) as [Hle|Hgt].
+      * pose proof (cut_length (n - len s1) more). cbn [tl length] in *. lia.
+      * exfalso. rewrite (Hnil eq_refl) in Hgt. lia.
+    + cbn [tl length] in *. lia.
+Qed.
+
+(* item 3: both kinds of transport; the bytes of the slices reach the log in order, whole or as a
+   prefix, wherever the transport cuts *)
+Theorem write_slices_spec fuel slices w :
+  wspec false (concat slices) w (fuel <= length (wscript w) + length slices)%nat (write_slices fuel slices w).
+Proof.
+  apply wpost_wspec; [apply write_slices_post|]. intros w' E.
+  destruct (Nat.le_gt_cases fuel (length (wscript w) + length slices)) as [Hle|Hgt]; [exact Hle|].
+  exfalso. eapply write_slices_fuel; eassumption.
+Qed.
+
+Corollary write_slices_ok fuel slices w w' : write_slices fuel slices w = Ok None w' ->
+  wlog w' = wlog w ++ concat slices /\ same_but_io w w'.
+Proof.
+  intros E. pose proof (write_slices_post fuel slices w) as H. rewrite E in H. cbn [wpost] in H.
+  split; [apply io_rel_wlog; exact H|apply H].
+Qed.
+
+Corollary write_slices_no_fault fuel slices w k w' :
+  no_fault (wscript w) -> write_slices fuel slices w <> Ok (Some k) w'.
+Proof.
+  intros Hn E. pose proof (write_slices_post fuel slices w) as H. rewrite E in H.
+  eapply wpost_no_fault; eassumption.
+Qed.
